@@ -127,7 +127,7 @@ def judge(ctx, recs, shards, tag):
 
 def gen_orders(ctx, shapes, thorough, nw):
     """Arrival orders per shape from the channel machine of Scan.tla."""
-    small = sorted(s for s in shapes if sum(s) >= 2 and len(s) >= 2 and n_interleavings(s) <= (720 if thorough else 60))
+    small = sorted(s for s in shapes if sum(s) >= 2 and len(s) >= 2 and n_interleavings(s) <= (360 if thorough else 60))
     big = sorted(s for s in shapes if sum(s) >= 2 and len(s) >= 2 and s not in small)
     orders = {s: [] for s in shapes}
     stats = []
@@ -147,7 +147,7 @@ def gen_orders(ctx, shapes, thorough, nw):
     if big:
         text = GEN_MOD % dict(name="ScanGenB", shapes=", ".join(tla_seq(s) for s in big),
                               wexpr="TRUE THEN W ELSE W")
-        per_worker = max(1, ((60 if thorough else 12) * len(big)) // nw + 1)
+        per_worker = max(1, ((40 if thorough else 12) * len(big)) // nw + 1)
         g = ctx.tlc("ScanGenB", "c11_genb.cfg", files={"ScanGenB.tla": text, "c11_genb.cfg": GEN_CFG % "2, 3, 8"},
                     workers=nw, simulate=per_worker, depth=400, deadlock=False, timeout=3000, tag="gen-orders-simulated")
         stats.append(g)
@@ -299,7 +299,7 @@ def run(ctx, cases_override=None):
         "rule": "inputs: every sequence of <=%d rule kinds (7 kinds) x 3 configurations x one/two files (TLC, exhaustive) plus simulated longer ones; "
                 "non-trivial = inputs whose real pipeline run has >=2 jobs with reports; per input every reachable arrival order when the shape has "
                 "<=%d interleavings (TLC, exhaustive over the channel machine with as many workers as jobs), else simulated schedules with 2/3/8 workers; "
-                "evaluations = arrival orders replayed into the real code + runs of the real -race binary" % (3 if th else 2, 720 if th else 60),
+                "evaluations = arrival orders replayed into the real code + runs of the real -race binary" % (3 if th else 2, 360 if th else 60),
         "exhaustive": False,
         "inputs": len(inputs), "inputs_with_cross_job_ties": len(kinds_of),
         "shapes": len(set(shapes_of)), "shapes_exhaustive": len(small), "shapes_simulated": len(big),
